@@ -314,11 +314,23 @@ kf("C11", "C11-forward-call-inside-bitcast", "a call inside `bitcast<T>(...)` is
 # ---------------------------------------------------------------- C07 (memory layout)
 kf("C07", "C07-inner-struct-align-attribute", "the alignment of a struct whose member carries @align(n) is not propagated to the enclosing struct/array: `struct I0 { @align(16) m0: u32 } struct S0 { m0: u32, m1: I0, m2: u32 }` places m1 at offset 4 (span 24) where WGSL has offset 16 (size 48); wrong in the IR, in SPIR-V Offset decorations and in every backend's addressing",
    ["C07|ir-layout|*|F3/struct/{u32,I0{*@align(*)},u32}", "C07|spirv-decorations|*|F3/struct/{u32,I0{*@align(*)},u32}", "C07|spirv|F3/struct/{u32,I0{*@align(*)},u32}|*|mismatch",
-    "C07|msl|F3/struct/{u32,I0{*@align(*)},u32}|*|mismatch", "C07|hlsl|F3/struct/{u32,I0{*@align(*)},u32}|*|mismatch", "C07|glsl|F3/struct/{u32,I0{*@align(*)},u32}|*|mismatch", "C07|glsl|F3/array2/I0{*@align(*)}|*|mismatch"])
+    "C07|msl|F3/struct/{u32,I0{*@align(*)},u32}|*|mismatch", "C07|hlsl|F3/struct/{u32,I0{*@align(*)},u32}|*|mismatch", "C07|glsl|F3/struct/{u32,I0{*@align(*)},u32}|*|mismatch", "C07|glsl|F3/array2/I0{*@align(*)}|*|mismatch",
+    "C07|ir-layout|*|F3x/X5/*IX{*@align(*", "C07|ir-layout|*|F3x/XO/*IX{*@align(*"])
 kf("C07", "C07-glsl-align-size-ignored", "the GLSL backend ignores @align and @size: members are declared back to back in std430/std140 blocks, so every following member is addressed at the wrong offset",
-   ["C07|glsl|F3/struct/*@align(*|*|mismatch", "C07|glsl|F3/struct/*@size(*|*|mismatch", "C07|glsl|F3/struct/*@align(*|*|trap:oob-read", "C07|glsl|F3/struct/*@size(*|*|trap:oob-read"])
+   ["C07|glsl|F3/struct/*@align(*|*|mismatch", "C07|glsl|F3/struct/*@size(*|*|mismatch", "C07|glsl|F3/struct/*@align(*|*|trap:oob-read", "C07|glsl|F3/struct/*@size(*|*|trap:oob-read",
+    "C07|glsl-layout|*|*|F3x/*/attr*"])
 kf("C07", "C07-glsl-std140-matCx2", "matCx2 values in a uniform (std140) block get column stride 16 where WGSL has 8: later columns/members are read from the wrong bytes (beyond the buffer for the last ones)",
-   ["C07|glsl|F3/*x2<f32>*|*|trap:oob-read", "C07|glsl|F3/*x2<f32>*|*|mismatch"])
+   ["C07|glsl|F3/*x2<f32>*|*|trap:oob-read", "C07|glsl|F3/*x2<f32>*|*|mismatch", "C07|glsl-layout|std140|*|F3x/*matCx2f32"])
+kf("C07", "C07-glsl-f16-vector-as-f32", "the GLSL backend declares vecN<f16> / matCxR<f16> members as vecN / matCxR (32-bit float types) while f16 scalars become float16_t: `enable f16; struct S { a: vec2<f16>, b: f32 }` is emitted as `struct S { vec2 a; float b; }`, so the member occupies 8 bytes instead of 4 and every following member, array stride and matrix stride is wrong in the std430/std140 block",
+   ["C07|glsl-layout|*|*|F3x/*f16vec*"])
+kf("C07", "C07-hlsl-f16-store-width", "a store of an f16 scalar to a storage buffer is emitted as the untemplated `buf.Store(addr, value)` (a 4-byte uint store; loads correctly use `Load<half>`): `enable f16; struct S { a: f16, b: f16 } ... s.a = 1.5h;` becomes `s.Store(0, 1.5h);`, which converts the value to uint and overwrites the 4 bytes at the offset, i.e. also the neighbouring member",
+   ["C07|hlsl-address|store: Store of # bytes to a leaf of # bytes (half)|F3x/*"])
+kf("C07", "C07-attr-hex-literal-ignored", "@align / @size whose argument is a hexadecimal literal is silently ignored (the literal text is read with a decimal scan, which yields 0 = attribute absent): `struct S { a: f32, @align(0x10) b: f32 }` places b at offset 4 (span 8) where WGSL has offset 16 (size 32); wrong in the IR, inherited by every backend",
+   ["C07|ir-layout|*|F3x/XS/*:hex)*", "C07|ir-layout|*|F3x/XS/*:hex-u)*", "C07|ir-layout|*|F3x/XS/*:hex-upper)*"])
+kf("C07", "C07-attr-const-expression-ignored", "@align / @size whose argument is any const-expression other than a single decimal literal (`4 * 4`, `15 + 1`, `8 << 1u`, `u32(16)`, a module-scope `const` declared before or after the struct, typed or not, or an expression over one) is silently ignored: `const K = 16; struct S { a: f32, @align(K) b: f32 }` places b at offset 4 where WGSL has 16; wrong in the IR, inherited by every backend",
+   ["C07|ir-layout|*|F3x/XS/*:mul)*", "C07|ir-layout|*|F3x/XS/*:add)*", "C07|ir-layout|*|F3x/XS/*:shift)*", "C07|ir-layout|*|F3x/XS/*:conv)*", "C07|ir-layout|*|F3x/XS/*:const)*",
+    "C07|ir-layout|*|F3x/XS/*:const-after)*", "C07|ir-layout|*|F3x/XS/*:const-u32)*", "C07|ir-layout|*|F3x/XS/*:const-i32)*", "C07|ir-layout|*|F3x/XS/*:const-expr)*",
+    "C07|ir-layout|*|F3x/XO/*:const)*", "C07|ir-layout|*|F3x/XO/*:const-after)*", "C07|ir-layout|*|F3x/XO/*:const-expr)*"])
 kf("C07", "C07-hlsl-missing-constructor-helper", "loading an array of structs (or array of arrays/matrices) from a storage buffer calls ConstructI0_/Constructarray2_* helper functions that are never emitted",
    ["C07|hlsl|F3/*|*|malformed-output:call of undeclared function \"Construct*"])
 kf("C07", "C07-hlsl-uniform-matCx2-in-nested-struct", "a matCx2 member of a struct nested in a uniform struct is read through GetMat<m>On<Struct> helpers that are never emitted; arrays of matCx2 in uniform space index a split matrix value",
